@@ -208,3 +208,14 @@ def gen_names(chk, rng, n_cp, n_random, exhaustive=False):
             else:
                 parts.append(chr(rng.randrange(MAXCP)))
         yield ("random", "".join(parts))
+    # long names with many escaped characters: the unescaper must decode EVERY escape of a name, however many there are
+    # (a regex `count` argument, a bounded loop or a recursion limit would show only here)
+    punct = "!?*+<>=/&%$@^~|"
+    for n in (15, 16, 17, 18, 31, 32, 33, 64, 100, 257):
+        yield ("long-escapes", "!" * n)
+        yield ("long-escapes", "a" + "!?" * n)
+        yield ("long-escapes", "".join(rng.choice(punct) for _ in range(n)))
+        yield ("long-escapes", "".join(rng.choice(punct + "ab-_") for _ in range(2 * n)))
+        yield ("long-escapes", "".join(chr(rng.randrange(0x2190, 0x2200)) for _ in range(n)))
+    for _ in range(max(20, n_random // 200)):
+        yield ("long-escapes", "".join(rng.choice(punct + "abz-_.") for _ in range(rng.randrange(20, 80))))
